@@ -350,7 +350,7 @@ func TestVerifReplay(t *testing.T) {
 	tf := filepath.Join(rd, "replay_test.go")
 	os.WriteFile(af, []byte(api), 0o644)
 	os.WriteFile(tf, []byte(test), 0o644)
-	rf := ReplayFile{Property: spec.Prop, Layer: "L2", Model: cex.Model, What: cex.Assertion, CorpusPkg: corpusPkg,
+	rf := ReplayFile{Property: spec.Prop, Layer: "L2", Model: cex.Model, What: cex.Assertion, CorpusPkg: corpusPkg, GenMode: spec.GenMode, GenKeep: spec.GenKeep,
 		Overlays: map[string]string{"api.go": af, "zz_verif_replay_test.go": tf},
 		Cmd:      "vcheck replay " + filepath.Join(rd, "replay.json")}
 	out, _ := json.MarshalIndent(rf, "", " ")
@@ -361,7 +361,11 @@ func TestVerifReplay(t *testing.T) {
 // runReplayL2 regenerates the corpus from the current tree and runs the test
 // against the real scheduler.
 func runReplayL2(rf *ReplayFile, corpusSrc string) (bool, string, error) {
-	c, err := PrepareCorpus(corpusSrc, []string{rf.CorpusPkg}, "base", false)
+	mode := rf.GenMode
+	if mode == "" {
+		mode = "base"
+	}
+	c, err := PrepareCorpusFiles(corpusSrc, []string{rf.CorpusPkg}, mode, false, rf.GenKeep)
 	defer c.Cleanup()
 	if err != nil {
 		return false, "", err
